@@ -290,6 +290,35 @@ SelfLaw == \A i \in 1..Len(SelfSeq) :
   \/ (SelfOut(i).status = "value" /\ SelfOut(i).v = TupV(<<BoolV(TRUE), BoolV(TRUE), BoolV(TRUE)>>))
   \/ (PrintT(<<"SELFLAW", SelfSeq[i], SelfOut(i)>>) /\ FALSE)
 
+\* The target of an assignment is evaluated BEFORE the value: when evaluating the value changes what the target expression
+\* would denote (an index held in a cell, a cell of cells re-pointed), the cell that was denoted first is the one updated.
+AllAsgOps == <<"=", "+=", "-=", "*=", "/=", "%=", "**=", "<<=", ">>=", "&=", "|=", "^=">>
+LhsMoves(route, op) ==
+  CASE route = "index" ->
+         <<Set("arr", ArrE(<<MutE(WInt, I(10)), MutE(WInt, I(20))>>)), Set("i", MutE(WInt, I(0))),
+           FnDecl("bump", <<>>, WInt, <<Asg("=", V("i"), I(1)), Ret(I(2))>>),
+           Set("y", Asg(op, At(V("arr"), Deref(V("i"))), CallE(V("bump"), <<>>))),
+           TupE(<<Deref(At(V("arr"), I(0))), Deref(At(V("arr"), I(1))), V("y")>>)>>
+    [] route = "cell-of-cells" ->
+         <<Set("a", MutE(WInt, I(10))), Set("b", MutE(WInt, I(20))), Set("outer", MutE(WMut(WInt), V("a"))),
+           FnDecl("swap", <<>>, WInt, <<Asg("=", V("outer"), V("b")), Ret(I(2))>>),
+           Set("y", Asg(op, Deref(V("outer")), CallE(V("swap"), <<>>))),
+           TupE(<<Deref(V("a")), Deref(V("b")), V("y")>>)>>
+    [] route = "struct-field" ->
+         <<Set("a", MutE(WInt, I(10))), Set("b", MutE(WInt, I(20))), Set("sel", MutE(WInt, I(0))),
+           FnDecl("pick", <<>>, WMut(WInt), <<If1(Bin("==", Deref(V("sel")), I(0)), Ret(V("a"))), Ret(V("b"))>>),
+           FnDecl("flip", <<>>, WInt, <<Asg("=", V("sel"), I(1)), Ret(I(2))>>),
+           Set("y", Asg(op, CallE(V("pick"), <<>>), CallE(V("flip"), <<>>))),
+           TupE(<<Deref(V("a")), Deref(V("b")), V("y")>>)>>
+ApplyBinOrSet(op, a, b) == IF op = "=" THEN b ELSE ApplyBin(SubSeq(op, 1, Len(op) - 1), a, b)
+LhsSeq == SetToSeq({<<rt, o>> : rt \in {"index", "cell-of-cells", "struct-field"}, o \in 1..Len(AllAsgOps)})
+LhsOut(i) == Outcome(Run(LhsMoves(LhsSeq[i][1], AllAsgOps[LhsSeq[i][2]]), 2000))
+LhsLaw == \A i \in 1..Len(LhsSeq) :
+  LET o == LhsOut(i) IN
+  \/ (o.status = "value" /\ o.v.es[2] = IntV(20) /\ o.v.es[1] = o.v.es[3]
+        /\ o.v.es[1] = ApplyBinOrSet(AllAsgOps[LhsSeq[i][2]], IntV(10), IntV(2)))
+  \/ (PrintT(<<"LHSLAW", LhsSeq[i], o>>) /\ FALSE)
+
 WatchNames == <<"c", "other", "s0", "y1", "s1", "y2", "s2">>
 HSeq == SetToSeq(Hists)
 N == Len(HSeq)
@@ -339,8 +368,10 @@ Emit ==
                                        \* visible that type is narrower and the program is another program
                                        notwin |-> TRUE]]
         \o [i \in 1..Len(SelfSeq) |-> [id |-> "c13-self-holding-" \o SelfSeq[i], suite |-> "c13", prog |-> SelfProg(SelfSeq[i]),
-                                       exp |-> SelfOut(i), watch |-> <<>>]])
-  /\ FreshCells /\ RhsLaw /\ WideLaw /\ SelfLaw
+                                       exp |-> SelfOut(i), watch |-> <<>>]]
+        \o [i \in 1..Len(LhsSeq) |-> [id |-> "c13-target-before-value-" \o LhsSeq[i][1] \o "-" \o ToString(LhsSeq[i][2]), suite |-> "c13",
+                                      prog |-> LhsMoves(LhsSeq[i][1], AllAsgOps[LhsSeq[i][2]]), exp |-> LhsOut(i), watch |-> <<>>]])
+  /\ FreshCells /\ RhsLaw /\ WideLaw /\ SelfLaw /\ LhsLaw
   /\ ndJsonSerialize(IOEnv.VERIF_OUT \o "/c13_neg_cases.ndjson",
         [i \in 1..Len(NegSeq) |-> [id |-> "c13-neg-" \o ToString(i), suite |-> "c13", negative |-> TRUE,
                                    prog |-> NegProg(NegSeq[i].n, NegSeq[i].al),
